@@ -1,12 +1,124 @@
 package main
 
+import (
+	"go/ast"
+	"strings"
+)
+
 func init() { families = append(families, factsDownsample) }
 
 // ---------------------------------------------------------------- downsample family
+
+// dsAssignRHS returns the text of the right-hand side of the first `name := …` / `name = …` in body.
+func dsAssignRHS(b ast.Node, name string) string {
+	res := "unknown"
+	if b == nil {
+		return res
+	}
+	done := false
+	ast.Inspect(b, func(n ast.Node) bool {
+		if done {
+			return false
+		}
+		if a, ok := n.(*ast.AssignStmt); ok && len(a.Lhs) == 1 && len(a.Rhs) == 1 {
+			if id, ok := a.Lhs[0].(*ast.Ident); ok && id.Name == name {
+				res, done = text(a.Rhs[0]), true
+				return false
+			}
+		}
+		return true
+	})
+	return res
+}
+
+// dsForConds lists the conditions of the for statements in body, in source order (range loops: "range").
+func dsForConds(b ast.Node) []string {
+	var r []string
+	if b == nil {
+		return r
+	}
+	ast.Inspect(b, func(n ast.Node) bool {
+		switch s := n.(type) {
+		case *ast.ForStmt:
+			if s.Cond == nil {
+				r = append(r, "true")
+			} else {
+				r = append(r, text(s.Cond))
+			}
+		case *ast.RangeStmt:
+			r = append(r, "range "+text(s.X))
+		}
+		return true
+	})
+	return r
+}
+
+// dsFirstReturn is the text of the results of the first return statement in body.
+func dsFirstReturn(b ast.Node) string {
+	res := "unknown"
+	if b == nil {
+		return res
+	}
+	done := false
+	ast.Inspect(b, func(n ast.Node) bool {
+		if done {
+			return false
+		}
+		if r, ok := n.(*ast.ReturnStmt); ok {
+			parts := make([]string, len(r.Results))
+			for i, x := range r.Results {
+				parts[i] = text(x)
+			}
+			res, done = strings.Join(parts, ", "), true
+			return false
+		}
+		return true
+	})
+	return res
+}
+
+// dsIfConds lists every if-condition in body, in source order.
+func dsIfConds(b ast.Node) []string {
+	var r []string
+	if b == nil {
+		return r
+	}
+	ast.Inspect(b, func(n ast.Node) bool {
+		if s, ok := n.(*ast.IfStmt); ok {
+			r = append(r, text(s.Cond))
+		}
+		return true
+	})
+	return r
+}
 
 func factsDownsample() {
 	f := parse("pkg/compact/downsample/aggr.go")
 	get := fn(f, "AggrChunk", "Get")
 	emitStr("aggrGetSizeTest", "pkg/compact/downsample/aggr.go AggrChunk.Get: the size test of the loop",
 		firstIfCond(body(get), "len(b[n:])"))
+
+	d := parse("pkg/compact/downsample/downsample.go")
+	emitStr("dsCurrentWindow", "downsample.go currentWindow: the returned expression", dsFirstReturn(body(fn(d, "", "currentWindow"))))
+	db := body(fn(d, "", "downsampleBatch"))
+	emitList("dsBatchConds", "downsample.go downsampleBatch: if-conditions in source order (new window / emit previous window / final emit)", dsIfConds(db))
+	emitStr("dsBatchNextT", "downsample.go downsampleBatch: how the next emission timestamp is chosen", dsAssignRHS(db, "nextT"))
+	rl := body(fn(d, "", "downsampleRawLoop"))
+	emitStr("dsRawBatchSize", "downsample.go downsampleRawLoop: batchSize", dsAssignRHS(rl, "batchSize"))
+	emitList("dsRawLoops", "downsample.go downsampleRawLoop: loop conditions in source order (outer loop, window extension, NaN filter)", dsForConds(rl))
+	emitStr("dsRawCurW", "downsample.go downsampleRawLoop: the window the batch is extended to", dsAssignRHS(rl, "curW"))
+	al := body(fn(d, "", "downsampleAggrLoop"))
+	emitStr("dsAggrBatchSize", "downsample.go downsampleAggrLoop: batchSize", dsAssignRHS(al, "batchSize"))
+	emitList("dsAggrLoopConds", "downsample.go downsampleAggrLoop: if-conditions in source order", dsIfConds(al))
+	add := body(fn(d, "floatAggregator", "add"))
+	emitList("dsAggregatorAddConds", "downsample.go floatAggregator.add: if-conditions in source order", dsIfConds(add))
+	nx := body(fn(d, "ApplyCounterResetsSeriesIterator", "Next"))
+	emitList("dsCounterNextConds", "downsample.go ApplyCounterResetsSeriesIterator.Next: if-conditions in source order", dsIfConds(nx))
+	emitList("dsCounterNextSeek", "downsample.go ApplyCounterResetsSeriesIterator.Next: the Seek call made when a chunk is exhausted", func() []string {
+		var r []string
+		for _, c := range calls(nx, "Seek") {
+			r = append(r, text(c))
+		}
+		return r
+	}())
 }
